@@ -50,6 +50,7 @@ theorem obs_length_inverted_double_pendulum (s : PState α) (nq nv : Nat)
     (InvertedDoublePendulum.obs s).length = InvertedDoublePendulum.obsSize nq nv := by
   subst hq hv
   simp [InvertedDoublePendulum.obs, InvertedDoublePendulum.obsSize, length_clip10]
+  omega
 
 /-- the bundled system has `nq = 3`: 1 + 2 + 2 + 3 = 8 … for any `nq ≥ 1` it is `2 nq - 1 + nv` -/
 theorem obsSize_inverted_double_pendulum (nq nv : Nat) (h : 1 ≤ nq) :
@@ -201,7 +202,7 @@ end reset
 
 /-! ## termination rules, rewards, action scaling — linear ordered fields -/
 section field
-variable {K : Type} [Field K] [LinearOrder K] [IsStrictOrderedRing K] [HasSqrt K] [HasTrig K]
+variable {K : Type} [Field K] [LinearOrder K] [IsStrictOrderedRing K]
 
 /-! ### action rescaling -/
 
@@ -288,7 +289,7 @@ theorem tip_inverted_double_pendulum (s : PState K) :
   congr 1 <;> ring
 
 /-- `done = 1` exactly when that point is at height ≤ 1, otherwise `done = 0` -/
-theorem done_iff_unhealthy_inverted_double_pendulum (s : PState K) :
+theorem done_iff_unhealthy_inverted_double_pendulum [HasTrig K] (s : PState K) :
     ((InvertedDoublePendulum.step s).done = 1 ↔ (InvertedDoublePendulum.tip s).z ≤ 1)
     ∧ ((InvertedDoublePendulum.step s).done = 0 ↔ 1 < (InvertedDoublePendulum.tip s).z) := by
   simp only [InvertedDoublePendulum.step, InvertedDoublePendulum.done]
@@ -296,7 +297,7 @@ theorem done_iff_unhealthy_inverted_double_pendulum (s : PState K) :
 
 /-- `reward = alive_bonus - dist_penalty - vel_penalty`; both penalties are non-negative, so the
 reward never exceeds the alive bonus 10 -/
-theorem reward_decomposition_inverted_double_pendulum (s : PState K) :
+theorem reward_decomposition_inverted_double_pendulum [HasTrig K] (s : PState K) :
     (InvertedDoublePendulum.step s).reward
         = 10 - InvertedDoublePendulum.distPenalty s - InvertedDoublePendulum.velPenalty s
     ∧ 0 ≤ InvertedDoublePendulum.distPenalty s ∧ 0 ≤ InvertedDoublePendulum.velPenalty s
@@ -392,7 +393,7 @@ theorem reward_decomposition_walker2d (c : Walker2d.Cfg K) (s0 s : PState K) (ac
 
 /-- with `terminate_when_unhealthy`: `done = 1` exactly when the torso height is outside the closed
 `healthy_z_range`, `0` inside -/
-theorem done_iff_unhealthy_ant (c : Ant.Cfg K) (s0 s : PState K) (act : List K)
+theorem done_iff_unhealthy_ant [HasSqrt K] (c : Ant.Cfg K) (s0 s : PState K) (act : List K)
     (ht : c.terminate = true) :
     ((Ant.step c s0 s act).done = 1 ↔ ¬ Ant.Healthy c s)
     ∧ ((Ant.step c s0 s act).done = 0 ↔ Ant.Healthy c s) := by
@@ -402,13 +403,13 @@ theorem done_iff_unhealthy_ant (c : Ant.Cfg K) (s0 s : PState K) (act : List K)
   · rw [← h.2]; constructor <;> intro e <;> linarith
   · rw [← h.1]; constructor <;> intro e <;> linarith
 
-theorem done_zero_of_not_terminate_ant (c : Ant.Cfg K) (s0 s : PState K) (act : List K)
+theorem done_zero_of_not_terminate_ant [HasSqrt K] (c : Ant.Cfg K) (s0 s : PState K) (act : List K)
     (ht : c.terminate = false) : (Ant.step c s0 s act).done = 0 := by
   simp [Ant.step, ht]
 
 /-- `reward = reward_forward + reward_survive + reward_ctrl + reward_contact`, the contact term
 being identically zero -/
-theorem reward_decomposition_ant (c : Ant.Cfg K) (s0 s : PState K) (act : List K) :
+theorem reward_decomposition_ant [HasSqrt K] (c : Ant.Cfg K) (s0 s : PState K) (act : List K) :
     (Ant.step c s0 s act).reward
         = idx (Ant.step c s0 s act).metrics 0 + idx (Ant.step c s0 s act).metrics 1
           + idx (Ant.step c s0 s act).metrics 2 + idx (Ant.step c s0 s act).metrics 3
@@ -418,11 +419,12 @@ theorem reward_decomposition_ant (c : Ant.Cfg K) (s0 s : PState K) (act : List K
     ∧ idx (Ant.step c s0 s act).metrics 3 = 0 := by
   simp only [Ant.step, idx, List.getD_cons_zero, List.getD_cons_succ, Ant.velocity, Ant.ctrlCost,
     Ant.contactCost, V3.sub_def]
-  refine ⟨by ring, rfl, rfl, rfl, by simp⟩
+  repeat' constructor
+  all_goals first | trivial | rfl | ring | simp
 
 /-! ### humanoid -/
 
-theorem done_iff_unhealthy_humanoid (c : Humanoid.Cfg K) (s0 s : PState K) (act qfrc : List K)
+theorem done_iff_unhealthy_humanoid [HasSqrt K] (c : Humanoid.Cfg K) (s0 s : PState K) (act qfrc : List K)
     (ht : c.terminate = true) :
     ((Humanoid.step c s0 s act qfrc).done = 1 ↔ ¬ Humanoid.Healthy c s)
     ∧ ((Humanoid.step c s0 s act qfrc).done = 0 ↔ Humanoid.Healthy c s) := by
@@ -432,13 +434,13 @@ theorem done_iff_unhealthy_humanoid (c : Humanoid.Cfg K) (s0 s : PState K) (act 
   · rw [← h.2]; constructor <;> intro e <;> linarith
   · rw [← h.1]; constructor <;> intro e <;> linarith
 
-theorem done_zero_of_not_terminate_humanoid (c : Humanoid.Cfg K) (s0 s : PState K)
+theorem done_zero_of_not_terminate_humanoid [HasSqrt K] (c : Humanoid.Cfg K) (s0 s : PState K)
     (act qfrc : List K) (ht : c.terminate = false) : (Humanoid.step c s0 s act qfrc).done = 0 := by
   simp [Humanoid.step, ht]
 
 /-- `reward = reward_linvel + reward_alive + reward_quadctrl`; the control cost is that of the
 RESCALED action; the forward term is the x-velocity of the centre of mass -/
-theorem reward_decomposition_humanoid (c : Humanoid.Cfg K) (s0 s : PState K) (act qfrc : List K) :
+theorem reward_decomposition_humanoid [HasSqrt K] (c : Humanoid.Cfg K) (s0 s : PState K) (act qfrc : List K) :
     (Humanoid.step c s0 s act qfrc).reward
         = idx (Humanoid.step c s0 s act qfrc).metrics 1 + idx (Humanoid.step c s0 s act qfrc).metrics 3
           + idx (Humanoid.step c s0 s act qfrc).metrics 2
@@ -448,17 +450,18 @@ theorem reward_decomposition_humanoid (c : Humanoid.Cfg K) (s0 s : PState K) (ac
     ∧ idx (Humanoid.step c s0 s act qfrc).metrics 3 = Humanoid.healthyReward c s := by
   simp only [Humanoid.step, idx, List.getD_cons_zero, List.getD_cons_succ, Humanoid.forwardReward,
     Humanoid.velocity, Humanoid.ctrlCost, Humanoid.action, V3.sub_def]
-  refine ⟨by ring, rfl, rfl, rfl⟩
+  repeat' constructor
+  all_goals first | trivial | rfl | ring | simp
 
 /-! ### environments without a termination rule: `done` is handed through -/
 
 theorem done_passthrough_halfcheetah (c : HalfCheetah.Cfg K) (s0 s : PState K) (act : List K) (d : K) :
     (HalfCheetah.step c s0 s act d).done = d := rfl
-theorem done_passthrough_swimmer (c : Swimmer.Cfg K) (s0 s : PState K) (act : List K) (d : K) :
+theorem done_passthrough_swimmer [HasSqrt K] (c : Swimmer.Cfg K) (s0 s : PState K) (act : List K) (d : K) :
     (Swimmer.step c s0 s act d).done = d := rfl
-theorem done_passthrough_reacher (s : PState K) (act : List K) (d : K) :
+theorem done_passthrough_reacher [HasSqrt K] [HasTrig K] (s : PState K) (act : List K) (d : K) :
     (Reacher.step s act d).done = d := rfl
-theorem done_passthrough_pusher (c : Pusher.Cfg K) (s0 s : PState K) (act : List K) (d : K) :
+theorem done_passthrough_pusher [HasSqrt K] (c : Pusher.Cfg K) (s0 s : PState K) (act : List K) (d : K) :
     (Pusher.step c s0 s act d).done = d := rfl
 theorem done_passthrough_humanoidstandup (c : HumanoidStandup.Cfg K) (s : PState K)
     (act qfrc : List K) (d : K) : (HumanoidStandup.step c s act qfrc d).done = d := rfl
@@ -474,28 +477,31 @@ theorem reward_decomposition_halfcheetah (c : HalfCheetah.Cfg K) (s0 s : PState 
     ∧ idx (HalfCheetah.step c s0 s act d).metrics 3 = -(c.ctrlW * sumSq act) := by
   simp only [HalfCheetah.step, idx, List.getD_cons_zero, List.getD_cons_succ,
     HalfCheetah.forwardReward, HalfCheetah.xVelocity, HalfCheetah.ctrlCost]
-  refine ⟨by ring, rfl, rfl⟩
+  repeat' constructor
+  all_goals first | trivial | rfl | ring | simp
 
 /-- the swimmer's forward velocity is read off the generalized coordinate `q[0]` -/
-theorem reward_decomposition_swimmer (c : Swimmer.Cfg K) (s0 s : PState K) (act : List K) (d : K) :
+theorem reward_decomposition_swimmer [HasSqrt K] (c : Swimmer.Cfg K) (s0 s : PState K) (act : List K) (d : K) :
     (Swimmer.step c s0 s act d).reward
         = idx (Swimmer.step c s0 s act d).metrics 0 + idx (Swimmer.step c s0 s act d).metrics 1
     ∧ idx (Swimmer.step c s0 s act d).metrics 0 = c.fwdW * ((idx s.q 0 - idx s0.q 0) / c.dt)
     ∧ idx (Swimmer.step c s0 s act d).metrics 1 = -(c.ctrlW * sumSq act) := by
   simp only [Swimmer.step, idx, List.getD_cons_zero, List.getD_cons_succ, Swimmer.forwardReward,
     Swimmer.xVelocity, Swimmer.ctrlCost]
-  refine ⟨by ring, rfl, rfl⟩
+  repeat' constructor
+  all_goals first | trivial | rfl | ring | simp
 
-theorem reward_decomposition_reacher (s : PState K) (act : List K) (d : K) :
+theorem reward_decomposition_reacher [HasSqrt K] [HasTrig K] (s : PState K) (act : List K) (d : K) :
     (Reacher.step s act d).reward
         = idx (Reacher.step s act d).metrics 0 + idx (Reacher.step s act d).metrics 1
     ∧ idx (Reacher.step s act d).metrics 1 = -sumSq act := by
   simp only [Reacher.step, idx, List.getD_cons_zero, List.getD_cons_succ, Reacher.rewardCtrl]
-  exact ⟨rfl, rfl⟩
+  repeat' constructor
+  all_goals first | trivial | rfl | ring | simp
 
 /-- `reward = reward_dist + 0.1 reward_ctrl + 0.5 reward_near`; the control term uses the RESCALED
 action and both distances are those of the state BEFORE the step -/
-theorem reward_decomposition_pusher (c : Pusher.Cfg K) (s0 s : PState K) (act : List K) (d : K) :
+theorem reward_decomposition_pusher [HasSqrt K] (c : Pusher.Cfg K) (s0 s : PState K) (act : List K) (d : K) :
     (Pusher.step c s0 s act d).reward
         = idx (Pusher.step c s0 s act d).metrics 1 + 0.1 * idx (Pusher.step c s0 s act d).metrics 2
           + 0.5 * idx (Pusher.step c s0 s act d).metrics 0
@@ -504,7 +510,8 @@ theorem reward_decomposition_pusher (c : Pusher.Cfg K) (s0 s : PState K) (act : 
     ∧ idx (Pusher.step c s0 s act d).metrics 1 = Pusher.rewardDist c s0 := by
   simp only [Pusher.step, idx, List.getD_cons_zero, List.getD_cons_succ, Pusher.rewardCtrl,
     Pusher.action]
-  exact ⟨rfl, rfl, rfl, rfl⟩
+  repeat' constructor
+  all_goals first | trivial | rfl | ring | simp
 
 /-- `reward = reward_linup + 1 + reward_quadctrl`, `reward_linup = z / dt` -/
 theorem reward_decomposition_humanoidstandup (c : HumanoidStandup.Cfg K) (s : PState K)
@@ -517,7 +524,8 @@ theorem reward_decomposition_humanoidstandup (c : HumanoidStandup.Cfg K) (s : PS
         = -(0.01 * sumSq (scaleAction act c.ctrlRange)) := by
   simp only [HumanoidStandup.step, idx, List.getD_cons_zero, List.getD_cons_succ,
     HumanoidStandup.uphCost, HumanoidStandup.quadCtrlCost, HumanoidStandup.action, sub_zero]
-  refine ⟨by ring, rfl, rfl⟩
+  repeat' constructor
+  all_goals first | trivial | rfl | ring | simp
 
 end field
 
@@ -525,38 +533,47 @@ end field
 section examples
 
 /-- default hopper configuration (`healthy_z_range = (0.7, ∞)`), `dt = 0.008` -/
-private def hopperCfg : Hopper.Cfg ℚ :=
+def hopperCfg : Hopper.Cfg ℚ :=
   ⟨1, 1/1000, 1, true, some (-100), some 100, some (7/10), none, some (-1/5), some (1/5), true, 1/125⟩
-private def hopperState (z ang : ℚ) : PState ℚ :=
+def hopperState (z ang : ℚ) : PState ℚ :=
   ⟨[0, 0, ang, 0, 0, 0], [0, 0, 0, 0, 0, 12], [⟨⟨0, 0, z⟩, Q4.one⟩], [Motion.zero]⟩
 
-example : (Hopper.step hopperCfg (hopperState 1 0) (hopperState (5/4) (1/10)) [1, -1, 0]).done = 0 := by
-  decide
-example : (Hopper.step hopperCfg (hopperState 1 0) (hopperState (1/2) (1/10)) [1, -1, 0]).done = 1 := by
-  decide
-example : (Hopper.step hopperCfg (hopperState 1 0) (hopperState (5/4) (1/4)) [1, -1, 0]).done = 1 := by
-  decide
-/-- the boundary is unhealthy (strict inequalities) -/
-example : (Hopper.step hopperCfg (hopperState 1 0) (hopperState (7/10) 0) [1, -1, 0]).done = 1 := by
-  decide
+theorem hopper_healthy_witness : Hopper.Healthy hopperCfg (hopperState (5/4) (1/10)) := by
+  simp [Hopper.Healthy, InOpen, hopperCfg, hopperState, linkPos, link, idx]
+  norm_num
+/-- the boundary of the z-range is unhealthy (strict inequalities) -/
+theorem hopper_unhealthy_witness : ¬ Hopper.Healthy hopperCfg (hopperState (7/10) 0) := by
+  simp [Hopper.Healthy, InOpen, hopperCfg, hopperState, linkPos, link, idx]
+
+/-- both sides of `done_iff_unhealthy_hopper` occur -/
+example : (Hopper.step hopperCfg (hopperState 1 0) (hopperState (5/4) (1/10)) [1, -1, 0]).done = 0 :=
+  (done_iff_unhealthy_hopper _ _ _ _ rfl).2.2 hopper_healthy_witness
+example : (Hopper.step hopperCfg (hopperState 1 0) (hopperState (7/10) 0) [1, -1, 0]).done = 1 :=
+  (done_iff_unhealthy_hopper _ _ _ _ rfl).1.2 hopper_unhealthy_witness
+
 /-- torso height replaces `q[1]`, `q[0]` is dropped, the velocity 12 is clipped to 10 -/
 example : Hopper.obs hopperCfg (hopperState (5/4) (1/10)) = [5/4, 1/10, 0, 0, 0, 0, 0, 0, 0, 0, 10] := by
-  decide
-example : Hopper.Healthy hopperCfg (hopperState (5/4) (1/10)) := by
-  rw [← isHealthy_hopper_iff]; decide
+  simp [Hopper.obs, hopperCfg, hopperState, linkPos, link, clip10, clip]
+  norm_num
 
-private def antCfg : Ant.Cfg ℚ := ⟨1/2, 1, true, some (1/5), some 1, true, 1/20⟩
-private def antState (z : ℚ) : PState ℚ :=
+def antCfg : Ant.Cfg ℚ := ⟨1/2, 1, true, some (1/5), some 1, true, 1/20⟩
+def antState (z : ℚ) : PState ℚ :=
   ⟨List.replicate 15 0, List.replicate 14 0, [⟨⟨0, 0, z⟩, Q4.one⟩], [Motion.zero]⟩
-/-- the ant's range is closed: the boundary is healthy -/
-example : Ant.isHealthy antCfg (antState (1/5)) = 1 ∧ Ant.isHealthy antCfg (antState (1/10)) = 0
-    ∧ Ant.isHealthy antCfg (antState (11/10)) = 0 := by decide
+/-- the ant's range is closed: the boundary is healthy; below and above are not -/
+example : Ant.Healthy antCfg (antState (1/5)) ∧ ¬ Ant.Healthy antCfg (antState (1/10))
+    ∧ ¬ Ant.Healthy antCfg (antState (11/10)) := by
+  simp [Ant.Healthy, InClosed, antCfg, antState, linkPos, link]
+  norm_num
 
 example : (InvertedPendulum.step (⟨[0, 1/4], [0, 0], [], []⟩ : PState ℚ)).done = 1
-    ∧ (InvertedPendulum.step (⟨[0, -1/10], [0, 0], [], []⟩ : PState ℚ)).done = 0 := by decide
+    ∧ (InvertedPendulum.step (⟨[0, -1/10], [0, 0], [], []⟩ : PState ℚ)).done = 0 := by
+  constructor
+  · rw [(done_iff_unhealthy_inverted_pendulum _ (by simp)).1]; norm_num [idx]
+  · rw [(done_iff_unhealthy_inverted_pendulum _ (by simp)).2]; norm_num [idx, abs_le]
 
-example : scaleAct (1/2 : ℚ) (-3) 3 = 3/2 := by decide
-example : scaleAction ([-1, 0, 1] : List ℚ) [(-3, 3), (-2/5, 2/5), (0, 1)] = [-3, 0, 1] := by decide
+example : scaleAct (1/2 : ℚ) (-3) 3 = 3/2 := by norm_num [scaleAct]
+example : scaleAction ([-1, 0, 1] : List ℚ) [(-3, 3), (-2/5, 2/5), (0, 1)] = [-3, 0, 1] := by
+  norm_num [scaleAction, scaleAct]
 
 end examples
 
